@@ -50,6 +50,8 @@ def _real(body):
 
 
 def check(ctx, rep):
+    from ..sigils import check as _sigils
+    _sigils(ctx, rep, ['pcbasic/basic/implementation.py:Implementation._input_file'], 1, from_params=('readvar',))
     # ---- EOF marker --------------------------------------------------------------------------------------
     cl = ctx.fn(DF + ':TextFile.close')
     fl = ctx.flow(cl)
@@ -195,6 +197,9 @@ def variants(ctx):
     def t(dotted, f):
         return lambda tree: f(mu.find_def(tree, dotted))
     return [
+        mu.Variant('input-file-types-the-item-from-the-uncompleted-name', 'break', 'pcbasic/basic/implementation.py',
+                   lambda tree: mu.replace_expr(mu.find_def(tree, 'Implementation._input_file'), mu.text_is('self.memory.complete_name(name)[-1:]'), 'name[-1:]'),
+                   expect='names.sigil-read-from-completed-name'),
         Va('no-eof-marker-on-close', 'break', DF, t('TextFile.close', lambda f: mu.remove_stmt(f, lambda st: isinstance(st, ast.If) and 'x1a' in norm(st))), expect='eof-marker.written'),
         Va('eof-marker-after-close', 'break', DF, t('TextFile.close', _marker_last), expect='eof-marker.written'),
         Va('append-keeps-old-marker', 'break', DISK,
